@@ -37,6 +37,7 @@ const (
 	oDrop
 	oFire
 	oGC
+	oStep // a no-op Lua call: one VM step (pending finalisers are extracted before it)
 	oEnter
 	oLeave
 )
@@ -51,14 +52,17 @@ const (
 	kTremark        // table whose finaliser resurrects and re-marks it (once)
 	kUFRres         // userdata FR whose finaliser resurrects it (once)
 	kTspin          // table whose finaliser never returns (only under a hard cpu limit)
+	kTkill          // table whose finaliser kills the context it runs in (only owned by a non-root context)
 	nKinds
 )
 
-var kindName = [nKinds]string{"T", "UR", "UFR", "Tres", "UF", "Tremark", "UFRres", "Tspin"}
+var kindName = [nKinds]string{"T", "UR", "UFR", "Tres", "UF", "Tremark", "UFRres", "Tspin", "Tkill"}
 
 func kindF(k uint8) bool     { return k != kUR }
 func kindR(k uint8) bool     { return k == kUR || k == kUFR || k == kUFRres }
-func kindTable(k uint8) bool { return k == kT || k == kTres || k == kTremark || k == kTspin }
+func kindTable(k uint8) bool {
+	return k == kT || k == kTres || k == kTremark || k == kTspin || k == kTkill
+}
 func kindRes(k uint8) bool   { return k == kTres || k == kTremark || k == kUFRres }
 func kindMode(k uint8) string {
 	switch k {
@@ -68,6 +72,8 @@ func kindMode(k uint8) string {
 		return "remark"
 	case kTspin:
 		return "spin"
+	case kTkill:
+		return "kill"
 	}
 	return ""
 }
@@ -131,6 +137,8 @@ func (o bop) String() string {
 		return "gcfire " + v
 	case oGC:
 		return "collectgarbage"
+	case oStep:
+		return "step"
 	case oEnter:
 		return "enter " + ctxName[o.a]
 	case oLeave:
@@ -180,7 +188,7 @@ type bcfg struct {
 }
 
 var permissive = bcfg{
-	kinds:    []uint8{kT, kUR, kUFR, kTres, kUF, kTremark, kUFRres, kTspin},
+	kinds:    []uint8{kT, kUR, kUFR, kTres, kUF, kTremark, kUFRres, kTspin, kTkill},
 	ctxKinds: []uint8{cCPU, cMem, cSoft},
 	leaves:   []uint8{lRet, lErr, lKill, lLoop},
 	nvals:    maxVals, maxDepth: 3, maxCtx: 100, length: 1 << 20,
@@ -217,6 +225,9 @@ func (s *gstate) allowed(o bop, c *bcfg) bool {
 		if o.a == kTspin && !s.hardCPU() {
 			return false
 		}
+		if o.a == kTkill && s.isolInst() == 0 {
+			return false
+		}
 		return true
 	case oRemark, oUnmeta, oDrop:
 		if int(o.v) >= s.n {
@@ -226,10 +237,10 @@ func (s *gstate) allowed(o bop, c *bcfg) bool {
 		if v.dropped && !(kindRes(v.kind) && v.fired) {
 			return false
 		}
-		if o.k == oRemark && v.kind == kTspin && v.owner != s.isolInst() {
-			return false // its finaliser must only ever run under a hard cpu limit
+		if o.k == oRemark && (v.kind == kTspin || v.kind == kTkill) && v.owner != s.isolInst() {
+			return false // its finaliser must only ever run under a hard cpu limit / below the root
 		}
-		if o.k == oUnmeta && v.kind == kTspin {
+		if o.k == oUnmeta && (v.kind == kTspin || v.kind == kTkill) {
 			return false
 		}
 		return true
@@ -247,6 +258,8 @@ func (s *gstate) allowed(o bop, c *bcfg) bool {
 				return false
 			}
 		}
+		return true
+	case oStep:
 		return true
 	case oEnter:
 		return s.depth < c.maxDepth && int(s.nctx) < c.maxCtx && in(c.ctxKinds, o.a)
@@ -313,7 +326,7 @@ func alphabet(c *bcfg) []bop {
 			out = append(out, bop{k, uint8(v), 0})
 		}
 	}
-	out = append(out, bop{oGC, 0, 0})
+	out = append(out, bop{oGC, 0, 0}, bop{oStep, 0, 0})
 	for _, k := range c.ctxKinds {
 		out = append(out, bop{oEnter, 0, k})
 	}
@@ -388,6 +401,10 @@ type bmachine struct {
 	keep    []interface{}
 	fires   int
 	opsRef  []bop
+	// autoStep (rendering "gostep"): the host runs one VM step before it
+	// leaves a context or closes the runtime, so that whatever Go collected
+	// has been extracted by then
+	autoStep bool
 }
 
 var curMachine *bmachine
@@ -502,6 +519,8 @@ function GC(o)
     note("mark", o)
   elseif m == "spin" then
     while true do end
+  elseif m == "kill" then
+    runtime.killcontext()
   end
   note("gcend", o)
 end
@@ -545,6 +564,9 @@ end
 function gcop(i)
   op(i)
   collectgarbage()
+end
+function step(i)
+  op(i)
 end
 function errop() error("leave by error") end
 function killop() runtime.killcontext() end
@@ -640,7 +662,7 @@ func newBMachineLibs(all bool) *bmachine {
 	if err := rt.Call(r.MainThread(), rt.FunctionValue(clos), nil, rt.NewTerminationWith(nil, 0, false)); err != nil {
 		panic("prelude: " + err.Error())
 	}
-	for _, n := range []string{"newT", "newU", "remark", "unmeta", "drop", "gcop", "errop", "killop", "loopop"} {
+	for _, n := range []string{"newT", "newU", "remark", "unmeta", "drop", "gcop", "step", "errop", "killop", "loopop"} {
 		m.fn[n] = env.Get(rt.StringValue(n))
 	}
 	m.notePool()
@@ -838,6 +860,8 @@ func renderLua(ops []bop) string {
 				fmt.Fprintf(&sb, "fire(%d, %d)\n", i, id)
 			case oGC:
 				fmt.Fprintf(&sb, "gcop(%d)\n", i)
+			case oStep:
+				fmt.Fprintf(&sb, "step(%d)\n", i)
 			case oEnter:
 				end := matchLeave(ops, i)
 				inst := instOf(ops, i)
@@ -909,6 +933,8 @@ func (m *bmachine) runGo(ops []bop, from, to int) (status string) {
 			m.fire(i, id) // no VM step: Go's collector acts between two operations of the host program
 		case oGC:
 			err = m.call("gcop", iv(i))
+		case oStep:
+			err = m.call("step", iv(i))
 		case oEnter:
 			end := matchLeave(ops, i)
 			inst := instOf(ops, i)
@@ -920,6 +946,9 @@ func (m *bmachine) runGo(ops []bop, from, to int) (status string) {
 			ctx, _ := m.r.MainThread().CallContext(ctxDef(o.a, depth), func() error {
 				m.logNow("enter", inst)
 				inner = m.runGo(ops, i+1, end)
+				if m.autoStep {
+					m.call("step", iv(-1))
+				}
 				m.logNow("bodyend", inst)
 				switch mode {
 				case lErr:
@@ -1037,7 +1066,11 @@ func runCase(ops []bop, via string) (res runResult) {
 		if via == "lua" {
 			res.status = m.runLua(ops)
 		} else {
+			m.autoStep = via == "gostep"
 			res.status = m.runGo(ops, 0, len(ops))
+			if m.autoStep {
+				m.call("step", iv(-1))
+			}
 		}
 		m.logNow("closebegin", 0)
 		m.r.Close(nil)
